@@ -9,27 +9,103 @@ import Fundraising.Proofs.ExecLemmas
 -/
 namespace Fundraising
 open Fundraising.Gen Fundraising.Go
+set_option linter.unusedSimpArgs false
 
 /-- **CancelAuction.**  `hid`: the stored auction carries its own key (`ViewWF.id`). -/
 theorem tie_CancelAuction (c : Ctx) (signer : Acc) (aid : Nat) (v : AView) (hv : c.s.views[aid]? = some v)
     (hid : v.a.id = aid) :
     cancelAuction c signer aid = Go.runPlan c aid v (Gen.CancelAuction ⟨signer, aid⟩ v.a false c.s.bank) := by
-  sorry
+  subst hid
+  unfold cancelAuction Gen.CancelAuction
+  simp only [Ctx.view, hv, Ctx.bal]
+  by_cases h1 : v.a.auctioneer = signer
+  · subst h1
+    by_cases h2 : v.a.status = Status.standby
+    · cases hty : v.a.type <;>
+      simp [runPlan, applyEff, dstOf, bind, Except.bind, pure, Except.pure, Ctx.fail, Ctx.check, h2, hty] <;>
+      (cases hmk : mkCoins c v.a.sellDenom (c.s.bank (.sell v.a.id) v.a.sellDenom) with
+      | error e => simp
+      | ok coins =>
+        simp
+        cases hb : c.bankCall .send (.sell v.a.id) (.user v.a.auctioneer) coins with
+        | error e => simp
+        | ok c1 =>
+          simp
+          cases hh : c1.hook "BeforeAuctionCanceled" [rNat v.a.id, rAcc v.a.auctioneer] with
+          | error e => simp
+          | ok c2 => simp)
+    · simp [runPlan, bind, Except.bind, pure, Except.pure, Ctx.fail, Ctx.check, h2]
+  · simp [runPlan, bind, Except.bind, pure, Except.pure, Ctx.fail, Ctx.check, h1]
 
 theorem tie_CancelAuction_noAuction (c : Ctx) (signer : Acc) (aid : Nat) (hv : c.s.views[aid]? = none)
     (a : Auction) (bal : Addr → Denom → Int) :
     cancelAuction c signer aid = c.fail ∧ Gen.CancelAuction ⟨signer, aid⟩ a true bal = (true, []) := by
-  sorry
+  unfold cancelAuction Gen.CancelAuction
+  simp [Ctx.view, hv, Ctx.fail, bind, Except.bind]
+
+/-! ### the loop of `AddAllowedBidders` -/
+
+private theorem runEffs_append (l1 l2 : List GEff) (c : Ctx) (v : AView) :
+    runEffs (l1 ++ l2) c v = (runEffs l1 c v >>= fun p => runEffs l2 p.1 p.2) := by
+  induction l1 generalizing c v with
+  | nil => simp [bind, Except.bind, pure, Except.pure]
+  | cons e es ih =>
+    simp only [List.cons_append, runEffs_cons, ih]
+    cases applyEff e c v <;> simp [bind, Except.bind]
+
+/-- the plan a finished / interrupted loop stands for -/
+private def loopPlan : Loop (Bool × List GEff) (List GEff) → Bool × List GEff
+  | .ret r => r
+  | .done e => (false, e)
+
+private theorem addLoop_run (a : Auction) (aid : Nat) (err : Bool) (abs : List AllowedArg) (effs : List GEff)
+    (c0 : Ctx) (v0 : AView) :
+    runPlan c0 aid v0 (loopPlan (AddAllowedBidders.loop1 a (aid : Int) err abs effs)) =
+      (runEffs effs c0 v0 >>= fun p => do
+        let l ← addLoop p.1 a.sellAmt abs p.2.allowed
+        pure (p.1.setView aid { p.2 with allowed := l })) := by
+  induction abs generalizing effs with
+  | nil =>
+    simp [AddAllowedBidders.loop1, loopPlan, runPlan, addLoop]
+  | cons ab rest ih =>
+    unfold AddAllowedBidders.loop1 addLoop
+    simp only [tie_AllowedBidder_Validate]
+    by_cases h1 : validAcc ab.bidder = true
+    · by_cases h2 : ab.cap > 0
+      · by_cases h3 : ab.cap > a.sellAmt
+        · simp [h1, h2, h3, loopPlan, runPlan, Ctx.check, Ctx.fail]
+          cases runEffs effs c0 v0 <;> simp [bind, Except.bind, pure, Except.pure]
+        · simp only [h1, h2, h3, sellingCoin_amt, decide_true, decide_false, Bool.and_self, Bool.not_true,
+            Bool.false_eq_true, if_false, ih, runEffs_append]
+          cases runEffs effs c0 v0 <;>
+            simp [bind, Except.bind, pure, Except.pure, applyEff, Ctx.check, setAllowedArg]
+      · simp [h1, h2, loopPlan, runPlan, Ctx.check, Ctx.fail]
+        cases runEffs effs c0 v0 <;> simp [bind, Except.bind, pure, Except.pure]
+    · simp [h1, loopPlan, runPlan, Ctx.check, Ctx.fail]
+      cases runEffs effs c0 v0 <;> simp [bind, Except.bind, pure, Except.pure]
 
 /-- **AddAllowedBidders** (keeper API). -/
 theorem tie_AddAllowedBidders (c : Ctx) (aid : Nat) (abs : List AllowedArg) (v : AView) (hv : c.s.views[aid]? = some v) :
     addAllowedBidders c aid abs = Go.runPlan c aid v (Gen.AddAllowedBidders (aid : Int) abs v.a false) := by
-  sorry
+  have key := addLoop_run v.a aid false abs [GEff.mk GName.beforeAllowedBiddersAdded [GVal.allowed abs]] c v
+  unfold addAllowedBidders Gen.AddAllowedBidders
+  simp only [Ctx.view, hv]
+  cases abs with
+  | nil => simp [runPlan, Ctx.check, Ctx.fail, bind, Except.bind, pure, Except.pure]
+  | cons ab rest =>
+    have hne : ¬ (((ab :: rest).length : Int) = 0) := by simp; omega
+    simp only [hne, decide_false, if_false, Bool.false_eq_true, List.nil_append]
+    show _ = runPlan c aid v (loopPlan _)
+    rw [key]
+    simp [applyEff, Ctx.check, bind, Except.bind, pure, Except.pure]
+    cases c.hook "BeforeAllowedBiddersAdded" (rAllowedArgs (ab :: rest)) <;> simp
 
 theorem tie_AddAllowedBidders_noAuction (c : Ctx) (aid : Nat) (abs : List AllowedArg) (hv : c.s.views[aid]? = none)
     (a : Auction) :
     addAllowedBidders c aid abs = c.fail ∧ Gen.AddAllowedBidders (aid : Int) abs a true = (true, []) := by
-  sorry
+  unfold addAllowedBidders Gen.AddAllowedBidders
+  simp only [Ctx.view, hv]
+  cases abs <;> simp [Ctx.check, Ctx.fail, bind, Except.bind, pure, Except.pure]
 
 /-- **UpdateAllowedBidder** (keeper API).  `hacc`: callers pass a real account address (the Go
     parameter is an `sdk.AccAddress`, not a string to be parsed). -/
@@ -38,13 +114,22 @@ theorem tie_UpdateAllowedBidder (c : Ctx) (aid : Nat) (bidder : Acc) (cap : Int)
     updateAllowedBidder c aid bidder cap =
       Go.runPlan c aid v (Gen.UpdateAllowedBidder (aid : Int) bidder cap v.a false
         ((lookupAllowed v.allowed bidder).getD default) (lookupAllowed v.allowed bidder).isNone) := by
-  sorry
+  unfold updateAllowedBidder Gen.UpdateAllowedBidder
+  simp only [Ctx.view, hv, tie_AllowedBidder_Validate, hacc]
+  cases hl : lookupAllowed v.allowed bidder with
+  | none => simp [runPlan, Ctx.check, Ctx.fail, bind, Except.bind, pure, Except.pure, hl]
+  | some x =>
+    by_cases h2 : cap > 0
+    · simp [runPlan, applyEff, setAllowedArg, Ctx.check, Ctx.fail, bind, Except.bind, pure, Except.pure, h2, hl]
+      cases c.hook "BeforeAllowedBidderUpdated" [rNat aid, rAcc bidder, rInt cap] <;> simp
+    · simp [runPlan, Ctx.check, Ctx.fail, bind, Except.bind, pure, Except.pure, h2, hl]
 
 theorem tie_UpdateAllowedBidder_noAuction (c : Ctx) (aid : Nat) (bidder : Acc) (cap : Int) (hv : c.s.views[aid]? = none)
     (a : Auction) (ab : Allowed) (e : Bool) :
     updateAllowedBidder c aid bidder cap = c.fail ∧
     Gen.UpdateAllowedBidder (aid : Int) bidder cap a true ab e = (true, []) := by
-  sorry
+  unfold updateAllowedBidder Gen.UpdateAllowedBidder
+  simp [Ctx.view, hv, Ctx.fail, bind, Except.bind]
 
 /-- **MsgAddAllowedBidder** through the message server: refused unless the switch is on
     (the C10 guard), then exactly `AddAllowedBidders` with the one-element list. -/
@@ -52,12 +137,21 @@ theorem tie_MsgServer_AddAllowedBidder (c : Ctx) (aid : Nat) (ab : AllowedArg) (
     (v : AView) (hv : c.s.views[aid]? = some v) :
     handle c (.addAllowed aid ab) =
       Go.runPlan c aid v (Gen.MsgServer_AddAllowedBidder ⟨aid, ab⟩ v.a false c.s.enableAdd).2 := by
-  sorry
+  unfold handle Gen.MsgServer_AddAllowedBidder
+  simp only [hacc]
+  cases he : c.s.enableAdd with
+  | false => simp [runPlan, Ctx.check, Ctx.fail, bind, Except.bind, pure, Except.pure]
+  | true =>
+    simp only [tie_AddAllowedBidders c aid [ab] v hv, Ctx.check, bind, Except.bind, if_true]
+    congr 1
+    cases Gen.AddAllowedBidders (aid : Int) [ab] v.a false with
+    | mk e l => cases e <;> simp
 
 /-- the C10 guard in isolation: with the switch off the translated handler refuses, before
     any effect, whatever the auction and the entry -/
 theorem tie_MsgServer_AddAllowedBidder_off (m : AddAllowedMsg) (a : Auction) (e : Bool) :
     (Gen.MsgServer_AddAllowedBidder m a e false).2 = (true, []) := by
-  sorry
+  unfold Gen.MsgServer_AddAllowedBidder
+  by_cases h : validAcc m.ab.bidder = true <;> simp [h]
 
 end Fundraising
